@@ -162,12 +162,6 @@ impl Prop for C05 {
     fn run(&self, space: &str, _index: u64, g: &mut Gen, cx: &Cx) -> CaseResult {
         if space == "corpus" {
             let (src, m) = c01::corpus_case(g, false);
-            // several delays in one function: recorded finding (the VM sizes all of them like the first)
-            if cx.excluded(c01::KF_MULTI_DELAY) && src.split("\nfn ").any(|f| f.matches("delay(").count() >= 2) {
-                let mut r = CaseResult::discard("excluded-by-known-finding");
-                r.count(&format!("excluded_by_known_finding:{}", c01::KF_MULTI_DELAY), 1);
-                return r;
-            }
             let inputs = gen_inputs(g);
             let n = *g.pick(&[8u64, 4, 16, 24]);
             let sched = src.contains('@') || src.contains("_mimium_schedule_at");
